@@ -198,7 +198,8 @@ class StmtMixin:
             # generator: `yield v` appends v to the ghost sequence _yielded (the sequence of yielded values is the function's result)
             sink = []
             outs = []
-            for s, v in self.ev(stmt.value.value, st, sink):
+            evs = self.ev(stmt.value.value, st, sink) if stmt.value.value is not None else [(st, ty.none_val())]
+            for s, v in evs:
                 cur = self.read_var(s, "_yielded")
                 new = ops.unit(v) if cur.e is None else SV(cur.t, z3.Concat(cur.e, z3.Unit(ops.coerce(v, cur.t.elem).e)))
                 self.store_loc(s, ast.Name(id="_yielded", ctx=ast.Load()), new)
